@@ -22,6 +22,19 @@ CHECKS = {
         "'Random 5-factor expressions' is replaced by the complete language up to 3 factors.",
         "DESIGN.md section 6 C02",
     ),
+    "C14": (
+        "exhaustive enumeration of the name universe (prefix symbol/word x symbol/alias/title form) and of all "
+        "exported attributes, against an independent name reader",
+        "Every string of {prefix symbol, prefix word, ''} x {table symbol, listed alias} plus title-case forms "
+        "(about 28k strings) is read by an independent reader that implements the stated precedence (table symbol "
+        "or listed alias first, then one prefix + prefixable unit) and by unyt; every exported attribute is "
+        "compared with the string route and with a custom registry's add_symbols namespace. The space is finite and "
+        "is enumerated completely, so a retargeted spelling, a prefix accepted on a non-prefixable unit or a "
+        "two-reading string cannot hide.",
+        "The symbol, listed-alternatives and prefix tables are taken as data; the reading rules are typed from the "
+        "statement. Scale of the base symbols themselves is C02's business.",
+        "DESIGN.md section 6 C14",
+    ),
     "C12": (
         "explicit-state BFS over registry-edit/cache-seeding histories on the real code, "
         "warm-vs-cold-vs-reference differential in every state",
